@@ -478,8 +478,10 @@ func parseZipkinJSON(payload *zipkinPayload, parser *fastjson.Parser, binIds boo
 		DroppedLinksCount:      0,
 		Status:                 nil, // todo we set status here.
 	}
-	parentId := root.GetStringBytes("parentId")
-	if parentId != nil {
+	if len(payload.parentId) == 8 {
+		// the write path stores the decoded (left-padded) parent id in parent_id
+		span.ParentSpanId = []byte(payload.parentId)
+	} else if parentId := root.GetStringBytes("parentId"); parentId != nil {
 		bParentId, err := decodeParentId(parentId)
 		if err == nil {
 			span.ParentSpanId = bParentId
